@@ -201,24 +201,32 @@ def _get_common_type_dims(arr_seq: Sequence[ArrayLike | None]) -> tuple[np.dtype
             maximum number of dimensions of any non-None element
     """
     ndim = None
-    dtype = None
+    dtypes: set[np.dtype] = set()
 
     for arr in arr_seq:
         if arr is None:
             continue
         element = np.asarray(arr)
-        if ndim is None:
-            ndim = element.ndim
-            dtype = element.dtype
-        else:
-            ndim = max(element.ndim, ndim)
-            assert dtype is not None  # Set in previous iteration when ndim was None
-            if np.can_cast(dtype, element.dtype):
-                dtype = np.promote_types(dtype, element.dtype)
-            else:
+        ndim = element.ndim if ndim is None else max(element.ndim, ndim)
+        dtypes.add(element.dtype)
+
+    dtype = None
+    if len(dtypes) > 0:
+        # Promote all dtypes at once: pairwise promotion is not associative in numpy, so
+        # folding over the elements would make the result depend on their order. The
+        # distinct dtypes are sorted so that the outcome is a function of the set alone.
+        unique_dtypes = sorted(dtypes, key=str)
+        try:
+            dtype = np.result_type(*unique_dtypes)
+        except TypeError as e:
+            raise ValueError(
+                f"All elements must have compatible dtypes. No common dtype for {unique_dtypes}."
+            ) from e
+        for element_dtype in unique_dtypes:
+            if not np.can_cast(element_dtype, dtype, casting="safe"):
                 raise ValueError(
-                    "All elements must have compatible dtypes. Cannot"
-                    f"cast {dtype} and {element.dtype}."
+                    "All elements must have compatible dtypes. Cannot "
+                    f"cast {element_dtype} to {dtype}."
                 )
 
     if dtype is None or ndim is None:
